@@ -88,3 +88,9 @@ Definition pn_okb (p : pool) (senders : list Z) : bool :=
                     | Some l => run_fromb (cur_nonce p a) (items l) && (pn_get p a =? cur_nonce p a + tl_len l)
                     | None => pn_get p a =? cur_nonce p a
                     end) senders.
+
+(* uint64 nonces for which nonce+1 does not wrap; pending lists are strict (txList.Remove then invalidates successors) *)
+Definition nonce_ok (t : tx) : Prop := 0 <= tnonce t < two64 - 1.
+Definition lists_wf (p : pool) : Prop :=
+  (forall a l, assoc a (pending p) = Some l -> strict l = true /\ Forall nonce_ok (items l)) /\
+  (forall a l, assoc a (queue p) = Some l -> Forall nonce_ok (items l)).
